@@ -22,17 +22,23 @@ import (
 
 var hookName = "VerifYield"
 
+// lockHook, when set, is called instead of the plain hook before statements of the form X.Lock() / X.RLock(),
+// with the address of X: the scheduler then knows which mutex the goroutine is about to take.
+var lockHook = ""
+
 func main() {
 	recv := map[string]bool{"ContentStorage": true}
 	args := os.Args[1:]
 	var funcs map[string]bool // nil: every method of the receiver types
-	for len(args) >= 2 && (args[0] == "-recv" || args[0] == "-hook" || args[0] == "-funcs") {
+	for len(args) >= 2 && (args[0] == "-recv" || args[0] == "-hook" || args[0] == "-funcs" || args[0] == "-lockhook") {
 		switch args[0] {
 		case "-recv":
 			recv = map[string]bool{}
 			for _, t := range strings.Split(args[1], ",") {
 				recv[t] = true
 			}
+		case "-lockhook":
+			lockHook = args[1]
 		case "-funcs":
 			funcs = map[string]bool{}
 			for _, t := range strings.Split(args[1], ",") {
@@ -88,6 +94,23 @@ func main() {
 	fmt.Fprintf(os.Stderr, "instr: %d yield points\n", n)
 }
 
+// lockTarget returns X for a statement of the form X.Lock() or X.RLock().
+func lockTarget(s ast.Stmt) ast.Expr {
+	es, ok := s.(*ast.ExprStmt)
+	if !ok {
+		return nil
+	}
+	call, ok := es.X.(*ast.CallExpr)
+	if !ok || len(call.Args) != 0 {
+		return nil
+	}
+	sel, ok := call.Fun.(*ast.SelectorExpr)
+	if !ok || (sel.Sel.Name != "Lock" && sel.Sel.Name != "RLock") {
+		return nil
+	}
+	return sel.X
+}
+
 func yieldStmt(site string) ast.Stmt {
 	return &ast.ExprStmt{X: &ast.CallExpr{
 		Fun:  ast.NewIdent(hookName),
@@ -103,6 +126,17 @@ func instrBlock(fset *token.FileSet, fn string, b *ast.BlockStmt) int {
 	var out []ast.Stmt
 	for _, s := range b.List {
 		site := fmt.Sprintf("%s:%d", fn, fset.Position(s.Pos()).Line)
+		if mu := lockTarget(s); mu != nil && lockHook != "" {
+			out = append(out, &ast.ExprStmt{X: &ast.CallExpr{
+				Fun: ast.NewIdent(lockHook),
+				Args: []ast.Expr{&ast.BasicLit{Kind: token.STRING, Value: fmt.Sprintf("%q", site)},
+					&ast.UnaryExpr{Op: token.AND, X: mu}},
+			}})
+			n++
+			n += instrStmt(fset, fn, s)
+			out = append(out, s)
+			continue
+		}
 		out = append(out, yieldStmt(site))
 		n++
 		n += instrStmt(fset, fn, s)
